@@ -22,6 +22,7 @@ import (
 	"github.com/elastos/Elastos.ELA/core/contract"
 	"github.com/elastos/Elastos.ELA/core/contract/program"
 	"github.com/elastos/Elastos.ELA/core/transaction"
+	"github.com/elastos/Elastos.ELA/core/types"
 	common2 "github.com/elastos/Elastos.ELA/core/types/common"
 	"github.com/elastos/Elastos.ELA/core/types/functions"
 	"github.com/elastos/Elastos.ELA/core/types/interfaces"
@@ -851,6 +852,247 @@ func main() {
 		st.Count("vs|"+strings.Join(ops, ";"), accepted > 0, "vote-seq")
 		delete(dstate.DposV2VoteRights, addr)
 		delete(dstate.UsedDposV2Votes, addr)
+	}
+
+	// ---------------------------------------------------------------- block-driven vote histories
+	// A standalone dpos State driven through the real State.ProcessBlock (transactions,
+	// expiry sweep, commit): register DPoS v2 producers, stake, vote with short lock
+	// times, renew votes at the heights around their expiry, return votes.  Every
+	// transaction passes the real SpecialContextCheck at the block height first.
+	voteBlocks := func(r *lib.Rng) {
+		p2 := *params
+		p2.DPoSConfiguration.DPoSV2MinVotesLockTime = 2
+		p2.DPoSConfiguration.DPoSV2MaxVotesLockTime = 60
+		saveParams, saveHeight := params, height
+		params = &p2
+		bs := state.NewState(&p2, nil, nil, nil, func() bool { return false }, nil, nil, nil, nil, nil, nil, nil)
+		bs.DPoSV2ActiveHeight = 0
+		oldState := chain.GetState()
+		chain.SetState(bs)
+		defer func() { chain.SetState(oldState); params, height = saveParams, saveHeight }()
+
+		type prod struct{ owner []byte }
+		var prods []prod
+		var regs []interfaces.Transaction
+		for j := 0; j < 3; j++ {
+			pcount++
+			o := key(pcount)
+			pcount++
+			n := key(pcount)
+			prods = append(prods, prod{o})
+			regs = append(regs, transaction.CreateTransaction(0, common2.RegisterProducer, 0,
+				&payload.ProducerInfo{OwnerKey: o, NodePublicKey: n, NickName: fmt.Sprintf("p%d-%d", pcount, j), StakeUntil: 100000},
+				uniqueAttr(), nil, nil, 0, nil))
+		}
+		process := func(h uint32, txs ...interfaces.Transaction) {
+			bs.ProcessBlock(&types.Block{Header: common2.Header{Height: h}, Transactions: txs}, nil, 0)
+		}
+		process(1, regs...)
+		for h := uint32(2); h <= 6; h++ {
+			process(h)
+		}
+		if len(bs.GetActivityV2Producers()) != len(prods) {
+			panic("DPoS v2 producers not active")
+		}
+		type vote struct {
+			amount int64
+			lock   uint32
+			prod   int
+			key    elacommon.Uint256
+			known  bool
+			renew  uint32 // height at which a renewal is attempted: lock-1, lock, lock+1 (the expiry block), lock+2
+		}
+		planRenew := func(v *vote) {
+			v.renew = 0
+			if r.Chance(75) {
+				v.renew = uint32(int(v.lock) + r.Range(-1, 2))
+			}
+		}
+		type addrS struct {
+			code   []byte
+			addr   elacommon.Uint168
+			exR    *big.Int
+			exU    *big.Int
+			votes  []*vote
+			blocks []string
+			log    []string
+			acc    int
+		}
+		var addrs []*addrS
+		for j := 0; j < 2; j++ {
+			c, a := newStake()
+			addrs = append(addrs, &addrS{code: c, addr: a, exR: b(0), exU: b(0)})
+		}
+		locked := func(a *addrS) int64 {
+			var sum int64
+			for _, p := range bs.GetAllProducers() {
+				for _, d := range p.GetAllDetailedDPoSV2Votes()[a.addr] {
+					for _, i := range d.Info {
+						sum += int64(i.Votes)
+					}
+				}
+			}
+			return sum
+		}
+		// refresh the refer keys of the votes of a after a block (new votes, renewed votes)
+		refresh := func(a *addrS) {
+			for _, v := range a.votes {
+				v.known = false
+			}
+			for pi, pr := range prods {
+				p := bs.GetProducer(pr.owner)
+				if p == nil {
+					continue
+				}
+				for k, d := range p.GetAllDetailedDPoSV2Votes()[a.addr] {
+					for _, v := range a.votes {
+						if !v.known && v.prod == pi && len(d.Info) == 1 && int64(d.Info[0].Votes) == v.amount && d.Info[0].LockTime == v.lock {
+							v.key, v.known = k, true
+							break
+						}
+					}
+				}
+			}
+		}
+		nBlocks := r.Range(25, 60)
+		for h := uint32(7); h < uint32(7+nBlocks); h++ {
+			height = h
+			var txs []interfaces.Transaction
+			renewed := map[*vote]bool{}
+			opsOf := map[*addrS][]string{}
+			for _, a := range addrs {
+				if !r.Chance(60) {
+					continue
+				}
+				R, U := int64(bs.DposV2VoteRights[a.addr]), int64(bs.UsedDposV2Votes[a.addr])
+				// a renewal is due when some vote of this address expires around now
+				var due *vote
+				for _, v := range a.votes {
+					if v.known && v.renew == h {
+						due = v
+					}
+				}
+				switch {
+				case due != nil:
+					newLock := due.lock + uint32(r.Range(1, 8))
+					tx := transaction.CreateTransaction(common2.TxVersion09, common2.Voting, payload.RenewalVoteVersion,
+						&payload.Voting{RenewalContents: []payload.RenewalVotesContent{{ReferKey: due.key,
+							VotesInfo: payload.VotesWithLockTime{Candidate: prods[due.prod].owner, Votes: fx(due.amount), LockTime: newLock}}}},
+						uniqueAttr(), nil, nil, 0, []*program.Program{{Code: a.code, Parameter: []byte{}}})
+					ok, why, pan := special(tx, nil)
+					if pan {
+						st.Fail("SpecialContextCheck:panic", "renewal check panicked: "+why, nil)
+					}
+					a.log = append(a.log, fmt.Sprintf("h%d renew vote(%d until %d) until %d ok=%v", h, due.amount, due.lock, newLock, ok))
+					if ok {
+						txs = append(txs, tx)
+						due.lock = newLock
+						planRenew(due)
+						renewed[due] = true
+						a.acc++
+					}
+				case r.Chance(30) || R == 0:
+					v := int64(r.PickI64(100000000, 100000000, 600000, 1000, 1))
+					tx := transaction.CreateTransaction(common2.TxVersion09, common2.ExchangeVotes, 0, &payload.ExchangeVotes{}, uniqueAttr(), nil,
+						[]*common2.Output{{AssetID: core.ELAAssetID, Value: fx(v), ProgramHash: a.addr, Type: common2.OTStake, Payload: &outputpayload.ExchangeVotesOutput{StakeAddress: a.addr}}}, 0, nil)
+					txs = append(txs, tx)
+					a.exR.Add(a.exR, b(v))
+					opsOf[a] = append(opsOf[a], fmt.Sprintf("VStake %d", v))
+					a.log = append(a.log, fmt.Sprintf("h%d stake %d", h, v))
+				case r.Chance(65):
+					// vote: all unused rights, half of them, or one too many
+					amt := R - U
+					switch r.Intn(4) {
+					case 0:
+						amt = (R-U)/2 + 1
+					case 1:
+						amt = R - U + 1
+					}
+					if amt <= 0 {
+						amt = 1
+					}
+					pi := r.Intn(len(prods))
+					lock := h + uint32(r.Range(2, 7))
+					tx := transaction.CreateTransaction(common2.TxVersion09, common2.Voting, payload.VoteVersion,
+						&payload.Voting{Contents: []payload.VotesContent{{VoteType: outputpayload.DposV2,
+							VotesInfo: []payload.VotesWithLockTime{{Candidate: prods[pi].owner, Votes: fx(amt), LockTime: lock}}}}},
+						uniqueAttr(), nil, nil, 0, []*program.Program{{Code: a.code, Parameter: []byte{}}})
+					ok, why, pan := special(tx, nil)
+					if pan {
+						st.Fail("SpecialContextCheck:panic", "voting check panicked: "+why, nil)
+					}
+					a.log = append(a.log, fmt.Sprintf("h%d vote %d until %d (rights %d used %d) ok=%v", h, amt, lock, R, U, ok))
+					if ok {
+						if b(amt).Cmp(new(big.Int).Sub(a.exR, a.exU)) > 0 {
+							st.Fail("Voting:accepted-above-vote-rights", "block history: Voting check accepted DPoS v2 votes above the unused vote rights (votes still locked on producers are not counted as used)",
+								map[string]interface{}{"history": append([]string{}, a.log...), "exact_rights": a.exR.String(), "exact_used": a.exU.String()})
+						}
+						txs = append(txs, tx)
+						nv := &vote{amount: amt, lock: lock, prod: pi}
+						planRenew(nv)
+						a.votes = append(a.votes, nv)
+						a.exU.Add(a.exU, b(amt))
+						opsOf[a] = append(opsOf[a], fmt.Sprintf("VVote [%d]", amt))
+						a.acc++
+					}
+				default:
+					value := R - U + int64(r.Intn(3)) - 1
+					if r.Chance(40) && R > 0 {
+						value = int64(r.Intn(int(R%1000000007) + 1))
+					}
+					tx := retVotesTx(a.code, value)
+					ok, why, pan := special(tx, nil)
+					if pan {
+						st.Fail("SpecialContextCheck:panic", "return votes check panicked: "+why, nil)
+					}
+					a.log = append(a.log, fmt.Sprintf("h%d return votes %d (rights %d used %d) ok=%v", h, value, R, U, ok))
+					if ok {
+						if b(value).Cmp(new(big.Int).Sub(a.exR, a.exU)) > 0 {
+							st.Fail("ReturnVotes:accepted-above-unused-rights", "block history: ReturnVotes accepted a value above the unused vote rights (votes still locked on producers are not counted as used)",
+								map[string]interface{}{"history": append([]string{}, a.log...), "exact_rights": a.exR.String(), "exact_used": a.exU.String()})
+						}
+						txs = append(txs, tx)
+						a.exR.Sub(a.exR, b(value))
+						opsOf[a] = append(opsOf[a], fmt.Sprintf("VReturn [0;0;0] %d", value))
+						a.acc++
+					}
+				}
+			}
+			process(h, txs...)
+			for _, a := range addrs {
+				// exact replay of the expiry sweep: a vote expires in the first block above its
+				// lock time, unless it was renewed in that block
+				var keep []*vote
+				for _, v := range a.votes {
+					if v.lock < h && !renewed[v] {
+						a.exU.Sub(a.exU, b(v.amount))
+						opsOf[a] = append(opsOf[a], fmt.Sprintf("VExpire %d", v.amount))
+						a.log = append(a.log, fmt.Sprintf("h%d expiry of vote %d (until %d)", h, v.amount, v.lock))
+					} else {
+						keep = append(keep, v)
+					}
+				}
+				a.votes = keep
+				refresh(a)
+				R, U := int64(bs.DposV2VoteRights[a.addr]), int64(bs.UsedDposV2Votes[a.addr])
+				a.blocks = append(a.blocks, fmt.Sprintf("(%s,(%s,%s))", lib.CoqList(opsOf[a]), lib.CoqZi(R), lib.CoqZi(U)))
+				lk := locked(a)
+				if b(R).Cmp(a.exR) != 0 || b(U).Cmp(a.exU) != 0 || R < 0 || U < 0 || U > R || lk != U {
+					st.Fail("VoteRights:block-history:used-votes-differ-from-locked-votes",
+						"after a block processed by State.ProcessBlock the DPoS v2 votes in use differ from the votes locked on producers / from the exact replay, exceed the vote rights, or a counter is negative",
+						map[string]interface{}{"height": h, "rights": R, "used_v2": U, "locked_on_producers": lk, "exact_rights": a.exR.String(), "exact_used": a.exU.String(), "history": append([]string{}, a.log...)})
+				}
+			}
+		}
+		for _, a := range addrs {
+			i := next()
+			sh.Add(fmt.Sprintf("CVBlocks %d %d %s", i, fee, lib.CoqList(a.blocks)))
+			st.LogCase(run.Out, i, map[string]interface{}{"op": "vote-blocks", "history": a.log})
+			st.Count("vb|"+strings.Join(a.log, ";"), a.acc > 0, "vote-blocks")
+		}
+	}
+	for k := 0; k < run.N(40, 1500); k++ {
+		voteBlocks(rng.Fork())
 	}
 
 	st.Extra["beyond_2^62"] = beyond
